@@ -1,1 +1,101 @@
-(* placeholder *)
+(* C14 -- Every IDL in the supported grammar generates Rust that compiles.
+   Only statements, each closed by [exact] of a lemma proved in Proofs/, with Print Assumptions beneath.
+
+   PARTIAL BY NATURE: "the emitted text type-checks" is a statement about rustc, of which no formal model is
+   available.  What is proved here are the decision procedures inside pilota-build on which compilability hinges
+   (necessary conditions); the property itself is validated by compiling generated documents
+   (pv/props/c14.py: real pilota-build in a child process, then `cargo check` of the emitted code).
+   Where the faithful model violates a condition, the violation is stated as a [..._refuted] theorem with a
+   witness that is replayed against the implementation (findings F-14b .. F-14e, F-14n). *)
+From Coq Require Import String List Bool.
+From PVBld Require Import Generated.Keywords Names Paths BoxCycle
+                          Proofs.NamesP Proofs.PathsP Proofs.BoxCycleP.
+Import ListNotations.
+Open Scope string_scope.
+
+(* ---- keyword escaping: Symbol's Display, over the REGENERATED KEYWORDS_SET ------------------------------ *)
+(* for every identifier [A-Za-z0-9_]+ other than the lone underscore, what Display prints is lexically a legal
+   Rust 2024 identifier token: never a strict or reserved keyword, never r# applied to crate/self/super/Self *)
+Theorem C14_no_keyword :
+  forall s, plain_ident s = true ->
+    ident_token_ok (display s) = true /\ ~ In (display s) rust_keywords.
+Proof. exact (fun s P => conj (display_token_ok s P) (display_not_keyword s P)). Qed.
+Print Assumptions C14_no_keyword.
+
+(* the lone underscore is a Thrift identifier, is printed verbatim and is not a Rust identifier (finding F-14e) *)
+Theorem C14_underscore_refuted : display "_" = "_" /\ ident_token_ok (display "_") = false.
+Proof. exact underscore_refuted. Qed.
+Print Assumptions C14_underscore_refuted.
+
+(* constants do not go through Display at all (finding F-14n; visible with change_case off) *)
+Theorem C14_const_keyword_refuted :
+  forall (conv : kind -> string -> string),
+    let scope := [mkSib KConst "in" None] in
+    emitted conv false scope (mkSib KConst "in" None) = "in" /\
+    plain_ident "in" = true /\ ident_token_ok (emitted conv false scope (mkSib KConst "in" None)) = false.
+Proof. exact const_keyword_refuted. Qed.
+Print Assumptions C14_const_keyword_refuted.
+
+(* ---- collision rule: siblings whose converted names coincide keep their original spelling ---------------- *)
+(* for ANY case conversion that is idempotent on its image, siblings of one kind with pairwise distinct original
+   names get pairwise distinct emitted names -- provided the escape stage is injective on the names it is
+   given ([escape_ok]: no k / k_ pair for a path-segment keyword k, no '#') *)
+Theorem C14_names_injective :
+  forall (conv : kind -> string -> string),
+    (forall k s, conv k (conv k s) = conv k s) ->
+    forall cc k scope,
+      (forall x, In x scope -> s_kind x = k /\ s_tag x = None) ->
+      NoDup (map s_orig scope) ->
+      escape_ok (map (rust_name conv cc scope) scope) = true ->
+      NoDup (map (emitted conv cc scope) scope).
+Proof. exact names_injective. Qed.
+Print Assumptions C14_names_injective.
+
+(* the side condition is necessary: `self` beside `self_` (finding F-14c) *)
+Theorem C14_names_escape_refuted :
+  forall (conv : kind -> string -> string) cc,
+    conv KField "self" = "self" ->
+    (conv KField "self_" = "self" \/ conv KField "self_" = "self_") ->
+    NoDup (map s_orig self_scope) /\
+    (forall x, In x self_scope -> s_kind x = KField /\ s_tag x = None) /\
+    ~ NoDup (map (emitted conv cc self_scope) self_scope).
+Proof. exact names_escape_refuted. Qed.
+Print Assumptions C14_names_escape_refuted.
+
+(* ---- relative paths between modules -------------------------------------------------------------------------- *)
+(* the text emitted for a reference from module p1 to the item with path p2, read by rustc inside module p1
+   (emitted names), names exactly that item -- whenever p2 is not a prefix of p1 *)
+Theorem C14_related_path :
+  forall p1 p2, is_prefix p2 p1 = false ->
+    exists r, related_path p1 p2 = Some r /\
+              resolve_item (map display p1) r =
+                option_map (fun it => (map display (removelast p2), display it)) (last_opt p2).
+Proof. exact related_path_resolves. Qed.
+Print Assumptions C14_related_path.
+
+(* and it is wrong in the remaining case (finding F-14d): the target's path is a proper prefix of the module path *)
+Theorem C14_related_path_prefix_refuted :
+  exists p1 p2, is_prefix p2 p1 = true /\ p1 <> p2 /\
+    related_path p1 p2 = Some ["super"] /\ resolve_item (map display p1) ["super"] = None.
+Proof. exact related_path_prefix_refuted. Qed.
+Print Assumptions C14_related_path_prefix_refuted.
+
+(* ---- Box insertion ----------------------------------------------------------------------------------------------- *)
+(* no by-value cycle passes through a message: every struct field whose target reaches the struct is boxed *)
+Theorem C14_box_breaks_cycles :
+  forall g d fs, NoDup (map fst g) -> In (d, IMsg fs) g -> ~ on_cycle (residual_edges g) d.
+Proof. exact box_breaks_cycles. Qed.
+Print Assumptions C14_box_breaks_cycles.
+
+(* hence every type has finite size unless there is a cycle made of union variants / typedefs only -- a
+   decidable condition, evaluated by the check on every generated document *)
+Theorem C14_box_finite :
+  forall g, NoDup (map fst g) -> union_cycle_b g = false -> finite_size g.
+Proof. exact box_finite_decided. Qed.
+Print Assumptions C14_box_finite.
+
+(* the complementary case is NOT broken (finding F-14b): two unions referring to each other by value *)
+Theorem C14_box_union_cycle_refuted :
+  NoDup (map fst union_cycle) /\ on_cycle (residual_edges union_cycle) 0 /\ ~ finite_size union_cycle.
+Proof. exact box_union_cycle_refuted. Qed.
+Print Assumptions C14_box_union_cycle_refuted.
